@@ -337,13 +337,6 @@ fn c10_parent(args: &Args) {
     let e2_only = inapplicable || e2_only_requested;
     let xn = args.u64("cross", match (e2_only, thorough) { (true, true) => 4000, (true, false) => 400, (false, true) => 400, (false, false) => 48 });
     let (xsum, xviol, xdisagree) = if xn > 0 { c10x::campaign(seed, xn, thorough, (workers as usize).min(12), e2_only) } else { Default::default() };
-    if !xdisagree.is_empty() {
-        for d in xdisagree.iter().take(5) {
-            eprintln!("{d}");
-        }
-        harness_error(&format!("E1/E2 disagreement on {} case(s): the simulated seams misrepresent the real ones", xdisagree.len()));
-    }
-
     // Aggregate.
     let mut agg = Agg::default();
     for r in &reports {
@@ -359,7 +352,12 @@ fn c10_parent(args: &Args) {
     let replays_dir = verif_home().join("replays");
     let _ = std::fs::create_dir_all(&replays_dir);
     let mut all: Vec<&Replay> = reports.iter().flat_map(|r| r.violations.iter()).collect();
-    all.sort_by_key(|r| (r.case.plan.faults.len(), r.case.instances, r.index, r.k));
+    // start from the smallest failing execution: short schedule, few faults, few instances
+    let sched_len = |r: &Replay| match &r.sched {
+        anthem_simrt::sched::SchedSpec::Replay { decisions } => decisions.len(),
+        _ => 0,
+    };
+    all.sort_by_key(|r| (sched_len(r) / 2000, r.case.plan.faults.len(), r.case.instances, r.index, r.k));
     for r in all {
         if let Some(k) = known.iter().find(|k| k.property == "C10" && k.class == r.violation.class && r.violation.detail.contains(&k.detail_contains)) {
             known_hits.insert(format!("KNOWN-FINDING: property=C10 {}", k.what));
@@ -367,10 +365,10 @@ fn c10_parent(args: &Args) {
         }
         // one minimised report per violation class is enough; count the rest
         new_violations += 1;
-        if !reported_classes.insert(r.violation.class.clone()) || reported_classes.len() > 4 {
+        if !reported_classes.insert(r.violation.class.clone()) || reported_classes.len() > 3 {
             continue;
         }
-        let min = c10::minimise(r.clone(), &mut scratch);
+        let min = c10::minimise(r.clone(), &mut scratch, if thorough { 240 } else { 45 });
         let path = replays_dir.join(format!("C10-{}-{}-{}-{}.json", seed, r.index, r.k, min.violation.class));
         std::fs::write(&path, serde_json::to_string_pretty(&min).unwrap()).unwrap();
         let confirm = Command::new(std::env::current_exe().unwrap()).args(["c10-replay", path.to_str().unwrap(), "--quiet"]).output().unwrap();
@@ -421,6 +419,16 @@ fn c10_parent(args: &Args) {
         ev["coverage"]["distinct_nontrivial"] = serde_json::json!(xsum.runs.max(2));
         ev["coverage"]["rule"] = serde_json::json!("E2-only mode: one evaluation = one run of the shipped binary with the stand-in prover under a seeded outcome plan and release order (the in-process engine was not applicable to this tree); distinct = distinct seeded cases");
         std::fs::write(&evidence_path, serde_json::to_string_pretty(&ev).unwrap()).unwrap();
+    }
+    if !xdisagree.is_empty() {
+        // Both oracles pass but the two engines print different things. On a tree whose output legitimately
+        // depends on the completion order this is expected; it must not hide violations found above.
+        for d in xdisagree.iter().take(3) {
+            println!("note: {d}");
+        }
+        if new_violations == 0 {
+            harness_error(&format!("E1/E2 disagreement on {} case(s) and no violation found: either the simulated seams misrepresent the real ones or the tree's output depends on the completion order in a way the oracle does not constrain", xdisagree.len()));
+        }
     }
     if agg.execs == 0 && xsum.runs == 0 {
         harness_error("no execution ran");
@@ -568,7 +576,7 @@ fn c10_try(args: &Args) {
     let r: Replay = serde_json::from_str(&std::fs::read_to_string(&path).unwrap_or_else(|e| harness_error(&format!("{path}: {e}")))).unwrap_or_else(|e| harness_error(&format!("{path}: {e}")));
     let mut scratch = Scratch::new("try");
     let (violations, digest, run) = c10::replay(&r, &mut scratch, false);
-    let out = c10::TryOut { violations, digest, decisions: run.result.trace.decisions.clone() };
+    let out = c10::TryOut { violations, digest, decisions: run.result.trace.decisions.clone(), vs_calm: run.result.trace.vs_calm.clone() };
     println!("{}", serde_json::to_string(&out).unwrap());
 }
 
